@@ -11,6 +11,36 @@ def firstOk : Name → Bool
   | c :: _ => decide (c = 100) || decide (c = 115)
   | [] => false
 
+theorem evalSteps_cons (sg : Bool) (name : Name) (s : CleanStep) (rest : List CleanStep) (b : Bool)
+    (h : evalStep sg name s = .val b) :
+    evalSteps sg name (s :: rest) = if b then .val false else evalSteps sg name rest := by
+  simp only [evalSteps, h]
+  cases b <;> rfl
+
+theorem evalSteps_clean13 (sg : Bool) (c : UInt8) (rest : List UInt8) (hr : rest.length = 12) :
+    evalSteps sg (c :: rest) cleanSteps =
+      .val ((decide (c = 100) || decide (c = 115)) && (rest.take 10).all isDigit) := by
+  have hl : (c :: rest).length = 13 := by simp [hr]
+  have hfun : evalCond sg (.or (.cmp .lt 48) (.cmp .gt 57)) = fun x => !isDigit x := funext (notDigit_cond sg)
+  have hscan := scan_lt sg (c :: rest) (.or (.cmp .lt 48) (.cmp .gt 57)) 11 (by omega) 15 1 (by omega)
+  have hb : (13 + sizeMod - 2) % sizeMod = 11 := by decide
+  have s1 : evalStep sg (c :: rest) (.rejectIfLen .ne 13) = .val false := by
+    simp only [evalStep, hl, cmpInt]; rfl
+  have s2 : evalStep sg (c :: rest) (.rejectIfCharAt 0 (.and (.cmp .ne 100) (.cmp .ne 115)))
+      = .val (!(decide (c = 100) || decide (c = 115))) := by
+    simp only [evalStep, charAt_lt (c :: rest) 0 (by omega), firstChar_cond]; rfl
+  have s3 : evalStep sg (c :: rest) (.rejectIfAnyInRange 1 .lt 2 (.or (.cmp .lt 48) (.cmp .gt 57)))
+      = .val (!((rest.take 10).all isDigit)) := by
+    simp only [evalStep, hl, hb]
+    show scan sg (c :: rest) _ .lt 11 15 1 = _
+    rw [hscan, hfun]
+    simp only [List.drop_succ_cons, List.drop_zero]
+    rw [List.all_eq_not_any_not, Bool.not_not]
+  show evalSteps sg (c :: rest) [.rejectIfLen .ne 13, .rejectIfCharAt 0 (.and (.cmp .ne 100) (.cmp .ne 115)),
+    .rejectIfAnyInRange 1 .lt 2 (.or (.cmp .lt 48) (.cmp .gt 57))] = _
+  rw [evalSteps_cons _ _ _ _ _ s1, evalSteps_cons _ _ _ _ _ s2, evalSteps_cons _ _ _ _ _ s3]
+  cases (decide (c = 100) || decide (c = 115)) <;> cases (rest.take 10).all isDigit <;> rfl
+
 /-- the three extracted tests, evaluated on an arbitrary name: never UB, and equal to
     "length 13, first byte d|s, bytes 1..10 digits" -/
 theorem evalSteps_clean (sg : Bool) (name : Name) :
@@ -20,30 +50,14 @@ theorem evalSteps_clean (sg : Bool) (name : Name) :
   · match name, hlen with
     | c :: rest, hlen =>
       have hr : rest.length = 12 := by simpa using hlen
-      have hscan := scan_lt sg (c :: rest) (.or (.cmp .lt 48) (.cmp .gt 57)) 11 (by simp [hr]) 15 1 (by omega)
-      have hl : (c :: rest).length = 13 := by simp [hr]
-      have hb : ((c :: rest).length + sizeMod - 2) % sizeMod = 11 := by rw [hl]; decide
-      have hf : (c :: rest).length + 2 = 15 := by simp [hr]
-      simp only [cleanSteps, evalSteps, evalStep, hb, hf, hscan, charAt_lt (c :: rest) 0 (by simp),
-        firstChar_cond, cmpInt]
-      simp only [List.length_cons, hr, List.getElem_cons_zero, firstOk, List.drop_succ_cons, List.drop_zero]
-      have hany : (List.take (11 - 1) rest).any (evalCond sg (.or (.cmp .lt 48) (.cmp .gt 57)))
-          = !((List.take 10 rest).all isDigit) := by
-        rw [List.all_eq_not_any_not, Bool.not_not]
-        congr 1
-        funext x
-        exact notDigit_cond sg x
-      rw [hany]
-      by_cases h1 : (decide (c = 100) || decide (c = 115)) = true
-      · by_cases h2 : (List.take 10 rest).all isDigit = true
-        · simp [h1, h2]
-        · have : (List.take 10 rest).all isDigit = false := by simpa using h2
-          simp [h1, this]
-      · have : (decide (c = 100) || decide (c = 115)) = false := by simpa using h1
-        simp [this]
+      rw [evalSteps_clean13 sg c rest hr]
+      simp [hr, firstOk]
   · have hc : cmpInt .ne (name.length : Int) ((13 : Nat) : Int) = true := by
       simp only [cmpInt, decide_eq_true_eq]; omega
-    simp only [cleanSteps, evalSteps, evalStep, hc]
+    have s1 : evalStep sg name (.rejectIfLen .ne 13) = .val true := by
+      simp only [evalStep, hc]
+    show evalSteps sg name (.rejectIfLen .ne 13 :: _) = _
+    rw [evalSteps_cons _ _ _ _ _ s1]
     simp [hlen]
 
 theorem cleanDecision_val (sg : Bool) (name : Name) :
